@@ -286,6 +286,19 @@ class C01(ValProp):
                 t, v = ['cont', 'u8', t], ['s', '1', v]
             out.append(show(['val', t, v]))
             out.append(show(['type', t]))
+        for _ in range(n // 10):
+            # defaults of vectors (odd and even lengths) of elements whose default root is not the zero chunk
+            e = r.choice([['cont', 'u8', 'u16'], ['list', 'u16', 40], ['bl', 9], ['union', 'u8', 'u16'], ['vec', ['list', 'u8', 2], 3],
+                          ['Bv', 48], ['bv', 300], ['cont', ['list', 'u8', 1]], ['Bl', 4]])
+            t = ['vec', e, r.choice([1, 2, 3, 3, 5, 6, 7, 9, 11, 15, 17])]
+            c = r.random()
+            if c < 0.3:
+                t = ['cont', 'u64', t]
+            elif c < 0.4:
+                t = ['union', t, 'u8']
+            elif c < 0.5:
+                t = ['vec', t, 3]
+            out.append(show(['type', t]))
         # mutations through child views (union values, fields, elements) of already hashed values
         for _ in range(n // 8):
             t = nested_ty(g, r.choice([1, 2, 2]))
@@ -1134,6 +1147,24 @@ class C15(ValProp):
             v = boundary_value(g, t, v)
             ops, _ = g.ops(t, v, g.rng.choice([4, 10, 25]))
             out.append(show(['histf', t, v] + ops))
+        # unions with a None option whose selected (non-None) option holds an all-zero payload, bare and nested
+        for _ in range(self.n(tier) // 10):
+            r = g.rng
+            x = r.choice(['u8', 'u64', 'bool', ['Bv', 32], ['Bv', 4], ['bv', 9], ['bv', 256], ['vec', 'u64', 4], ['vec', 'u16', 3], ['cont', 'u256'],
+                          ['list', 'u8', 3], ['bl', 5]])
+            opts = ['none'] + [r.choice(['u16', x]) for _ in range(r.randint(0, 2))] + [x]
+            u = ['union'] + opts
+            uv = ['u', len(opts) - 1, g.zero(x)]
+            c = r.random()
+            if c < 0.3:
+                t, v = ['cont', 'u8', u, u], ['s', '1', uv, ['u', 0, 'none']]
+            elif c < 0.6:
+                t, v = ['list', u, 4], ['s', uv, ['u', 0, 'none'], uv]
+            elif c < 0.7:
+                t, v = ['vec', u, 2], ['s', uv, uv]
+            else:
+                t, v = u, uv
+            out.append(show(['val', t, v]))
         # hash() of every held view after mutations through child views (against a brand-new view of the same backing)
         for _ in range(self.n(tier) // 5):
             t = nested_ty(g, g.rng.choice([1, 2, 2]))
@@ -1427,8 +1458,15 @@ class C18(Prop):
                 # same root, different shape: zero summaries against (partially) expanded zero subtrees
                 tz = g.tree(r.choice([2, 3, 4]), 0.4)
                 te = self.expand_zeros(g, tz)
-                out.append(show(['tree', tz, ['diff', te], ['graft', te], ['diff', self.expand_zeros(g, g.tree_write(tz))]]))
-                out.append(show(['tree', te, ['diff', tz], ['graft', tz]]))
+                out.append(show(['tree', tz, ['diff', te], ['graft', te], ['diff', self.expand_zeros(g, g.tree_write(tz))], ['leaves']]))
+                out.append(show(['tree', te, ['diff', tz], ['graft', tz], ['leaves']]))
+                # siblings with the same root and different shapes (a summary next to its own expansion, either side)
+                d = r.choice([1, 2, 3])
+                zs, ze = ['Z', d], self.expand_zeros(g, ['P', ['Z', d - 1], ['Z', d - 1]])
+                sib = ['P', zs, ze] if r.random() < 0.5 else ['P', ze, zs]
+                if r.random() < 0.5:
+                    sib = ['P', sib, g.tree(1, 0.3)]
+                out.append(show(['tree', sib, ['leaves'], ['diff', ['P', ze, ze]], ['hist', r.randint(1, 15), ['P', ze, ze], sib]]))
             if r.random() < 0.5:
                 # default-style trees whose pairs share ONE child object (subtree_fill_to_depth), nested, and a second
                 # tree derived from the first by writes (shares every untouched node object with it)
